@@ -214,6 +214,42 @@ var localPool = []string{expandLocal, "\u00ad", "", "a", "A", "ß", "ǅ", "ａ",
 var domainPool = []string{expandDomain, "\u00ad", "a\u00ad", "\u200b", "", "a", "A.b", "example.com", "example.com.", "example.com..", "EXAMPLE。com", "a。", "xn--bcher-kva.example", "xn--a", "xn--", "bücher.example", "[::1]", "[::A]", "[::1", "127.0.0.1", "127.0.0.1.", "1.2.3", "a@b", "a/b", "a／b", "a＠b", "-a", "a-", "a b", "a‍b", ".", "..", "\xff", longDom, longDom2, "ß.example", "ǅ.example", "ａ.example", "[127.0.0.1]", "a_b"}
 var resPool = []string{"", "a", "A", "a/b", "a@b", "/", "@", " ", "a b", "a b", "ａ", "é", "it's<&>\"", "\xff", long1023, long1024, "‍", "ß"}
 
+// pairsBody: Equal on pairs of addresses agrees with the part accessors. The
+// pools are chosen so that many pairs have identical concatenated bytes with
+// different part boundaries (a@b/c and a@bc, example.net/org and
+// example.netorg, ab and a@b ...).
+var pairLocals = []string{"", "a", "ab", "example"}
+var pairDomains = []string{"b", "bc", "ab", "example.net", "example.netorg", "net"}
+var pairResources = []string{"", "c", "org", "bc", "net"}
+
+func pairsBody(c *nd.Ctx) nd.Result {
+	var js [2]jid.JID
+	var parts [2][3]string
+	for i := range js {
+		l := pairLocals[c.Choose(len(pairLocals), "local")]
+		d := pairDomains[c.Choose(len(pairDomains), "domain")]
+		r := pairResources[c.Choose(len(pairResources), "resource")]
+		j, err := jid.New(l, d, r)
+		if err != nil {
+			panic(fmt.Sprintf("c11: pair pool entry %q %q %q is not a valid address: %v", l, d, r, err))
+		}
+		js[i] = j
+		parts[i] = [3]string{j.Localpart(), j.Domainpart(), j.Resourcepart()}
+	}
+	desc := fmt.Sprintf("%q vs %q", js[0].String(), js[1].String())
+	c.Note("%s", desc)
+	res := nd.Result{Outcome: "pair", NonTrivial: desc}
+	want := parts[0] == parts[1]
+	if got := js[0].Equal(js[1]); got != want || js[1].Equal(js[0]) != want {
+		res.Violation = viol("equal:disagrees-with-parts", "%s: Equal reports %v / %v, the part accessors say %v (parts %q and %q)", desc, got, js[1].Equal(js[0]), want, parts[0], parts[1])
+		return res
+	}
+	if (js[0].String() == js[1].String()) != want {
+		res.Violation = viol("equal:string-forms", "%s: string forms equal=%v, parts equal=%v", desc, js[0].String() == js[1].String(), want)
+	}
+	return res
+}
+
 func partsBody(c *nd.Ctx) nd.Result {
 	l := localPool[c.Choose(len(localPool), "local")]
 	d := domainPool[c.Choose(len(domainPool), "domain")]
@@ -336,6 +372,7 @@ func init() {
 			return []drv.Part{
 				{Name: "parse", Desc: fmt.Sprintf("all strings of length <= %d symbols", l), Body: parseBody(l), CutDepth: 3, Budget: budget},
 				{Name: "parts", Desc: "cross product of part pools through New and WithX", Body: partsBody, CutDepth: 2, Budget: budget},
+				{Name: "pairs", Desc: "Equal on every pair of 120 addresses, many with identical bytes and different part boundaries", Body: pairsBody, CutDepth: 3, Budget: budget},
 			}
 		},
 	})
